@@ -277,6 +277,10 @@ class GateFolder:
         if r[0] == 'un' and r[1] == 'Not' and len(r[2]) == 1:
             x = self.eval_origin(fn, og, r[2][0], depth + 1)
             return None if x is None else (not x)
+        if r[0] == 'agg' and len(r) > 2 and str(r[1]).endswith('SpecId') and isinstance(r[2], str):
+            # `SpecId::CANCUN` written as a value (a run-time gate spelled out instead of check!)
+            d = self.fx.discr_of(r[1], r[2])
+            return None if d is None else int(d)
         return None
 
     def folded_reach(self, fn, start=0):
